@@ -15,21 +15,47 @@ impl CryptoRng for StrandRng {}
 impl RngCore for StrandRng {
     #[inline(always)]
     fn next_u32(&mut self) -> u32 {
+        #[cfg(strand_verif)]
+        {
+            let mut b = [0u8; 4];
+            if crate::verif_hooks::rng_fill(&mut b) {
+                return u32::from_le_bytes(b);
+            }
+        }
         OsRng.next_u32()
     }
 
     #[inline(always)]
     fn next_u64(&mut self) -> u64 {
+        #[cfg(strand_verif)]
+        {
+            let mut b = [0u8; 8];
+            if crate::verif_hooks::rng_fill(&mut b) {
+                return u64::from_le_bytes(b);
+            }
+        }
         OsRng.next_u64()
     }
 
     #[inline(always)]
     fn fill_bytes(&mut self, dest: &mut [u8]) {
+        #[cfg(strand_verif)]
+        {
+            if crate::verif_hooks::rng_fill(dest) {
+                return;
+            }
+        }
         OsRng.fill_bytes(dest)
     }
 
     #[inline(always)]
     fn try_fill_bytes(&mut self, dest: &mut [u8]) -> Result<(), Error> {
+        #[cfg(strand_verif)]
+        {
+            if crate::verif_hooks::rng_fill(dest) {
+                return Ok(());
+            }
+        }
         OsRng.try_fill_bytes(dest)
     }
 }
